@@ -166,6 +166,53 @@ func checkC12(c *hx.Ctx) {
 			}
 		}
 	}
+	// ---- (a3) a revealed key whose coordinate is written in another base64url spelling of the same bytes: "the key it reveals"
+	// is the JWK as written (that is what reveal value and commitment are computed over), so re-committing to it is refused
+	{
+		ar := c.Rng("spelling")
+		for _, kt := range []string{"Ed25519", "P-256", "secp256k1"} {
+			for rep := 0; rep < c.N(2, 8); rep++ {
+				p := hx.BaseProtocol()
+				v := hx.NewVersion(p, hx.VersionOpts{})
+				code := uint64(ref.SHA256)
+				k := ref.NewKey(kt, "K", ar.Bytes(32))
+				x, _ := k.JWK()["x"].(string)
+				alt := ref.AltSpelling(x)
+				if alt == "" || alt == x {
+					continue
+				}
+				ka := *k
+				ka.XSpelling = alt
+				other := ref.NewKey(kt, "O", ar.Bytes(32))
+				u := &Universe{Code: code, Suffix: "EiDsuffixsuffixsuffixsuffixsuffixsuffixsuffixsu", Proto: p, MaxDelta: 300}
+				k2p := []interface{}{patchAddServices(svcEntry("s", "t", "https://s.example"))}
+				for _, opk := range []string{"update", "recover"} {
+					var self, fine *ref.Op
+					if opk == "update" {
+						self = u.MkSigned("upd", "update", &ka, "", ka.Commitment(code), k2p, SignedOpts{})
+						fine = u.MkSigned("upd", "update", &ka, "", other.Commitment(code), k2p, SignedOpts{})
+					} else {
+						self = u.MkSigned("rec", "recover", &ka, ka.Commitment(code), other.Commitment(code), k2p, SignedOpts{})
+						fine = u.MkSigned("rec", "recover", &ka, other.Commitment(code), k.Commitment(code), k2p, SignedOpts{})
+					}
+					c.Eval()
+					_, eFine := v.Parser.Parse(hx.Namespace, fine.Request)
+					_, eSelf := v.Parser.Parse(hx.Namespace, self.Request)
+					if eFine != nil {
+						c.Count("alternative_spelling_refused_altogether:" + opk)
+						continue // the library refuses such a key as such: nothing to show
+					}
+					if eSelf == nil {
+						c.Violation(fmt.Sprintf("C12 intake accepted a %s that re-commits to the key it reveals (key type %s, x coordinate written as %q instead of %q)", opk, kt, alt, x),
+							map[string]interface{}{"request": string(self.Request), "protocol": p})
+						return
+					}
+					c.Count("self_commit_with_alternative_spelling_rejected:" + opk)
+					c.Distinct(fmt.Sprintf("spelling|%s|%s|%d", opk, kt, rep))
+				}
+			}
+		}
+	}
 	// ---- (b) cycles in resolution
 	p := hx.BaseProtocol()
 	perms := map[int][][]int{}
@@ -310,6 +357,7 @@ func checkC12(c *hx.Ctx) {
 	c.Floor("cycles_closed_by_unpublished_operations", 50)
 	c.Floor("self_commit_rejected:update", 16)
 	c.Floor("self_commit_with_nonce_rejected:update", 5)
+	c.Floor("self_commit_with_alternative_spelling_rejected:update", 3)
 	c.Floor("self_commit_with_nonce_rejected:recover", 5)
 	c.Floor("self_commit_rejected:recover", 16)
 	c.Floor("other_commit_accepted:update", 16)
